@@ -207,6 +207,13 @@ def _wraps_body(sigparams, mode, target_idx, with_default):
             w2 = wraps(w)(inner2)
             if getattr(w2, '__wrapped__', None) is not w:
                 return fail('wrapped_attribute_of_stacked_wrapper', tag)
+            # wrapping again with hide_wrapped must not reach into the function being wrapped
+            dict_before = dict(w.__dict__)
+            w3 = wraps(w, hide_wrapped=True)(inner2)
+            if hasattr(w3, '__wrapped__'):
+                return fail('hide_wrapped_ignored', tag)
+            if w.__dict__ != dict_before or getattr(w, '__wrapped__', None) is not f:
+                return fail('wrapping_mutated_the_wrapped_function', '%s: __dict__ %r -> %r' % (tag, sorted(dict_before), sorted(w.__dict__)))
             if inspect.signature(w2, follow_wrapped=False) != sig_f or w2.__name__ != f.__name__:
                 return fail('stacked_wrapper_signature', tag)
             for args, kws in list(all_call_shapes())[::5]:
@@ -258,6 +265,18 @@ def _wraps_body(sigparams, mode, target_idx, with_default):
     else:
         def inner(*a, **k):
             return (a, k)
+    # the name is given as a bare string, in a list, or as a mapping key; 'zz' has two characters (a string is itself a
+    # 2-iterable, so a careless (name, default) unpacking would split it)
+    for spec in ((['zz'], {'zz': 55}) if not with_default else ([('zz', 55)],)):
+        w2c = wraps(f, expected=spec if not (isinstance(spec, dict) and not with_default) else spec)(inner)
+        s2 = inspect.signature(w2c, follow_wrapped=False)
+        extra = [n for n in s2.parameters if n not in sig_f.parameters]
+        if extra != ['zz']:
+            return fail('expected_two_character_name', '%s expected=%r: %s' % (tag, spec, s2))
+        dz = s2.parameters['zz'].default
+        want = 55 if (with_default or isinstance(spec, dict)) else inspect.Parameter.empty
+        if dz != want and not (dz is want):
+            return fail('expected_two_character_default', '%s expected=%r: %s' % (tag, spec, s2))
     w = wraps(f, expected=[('z', 55)] if with_default else 'z')(inner)
     sig_w = inspect.signature(w, follow_wrapped=False)
     rest = [p for n, p in sig_w.parameters.items() if n != 'z']
